@@ -26,6 +26,12 @@ impl ReadBuffer {
         self.begin == self.end
     }
 
+    /// discard all buffered data
+    pub(crate) fn clear(&mut self) {
+        self.begin = 0;
+        self.end = 0;
+    }
+
     pub(crate) fn read(&mut self, count: usize) -> Result<&[u8], InternalError> {
         if self.len() < count {
             return Err(InternalError::InsufficientBytesForRead(count, self.len()));
